@@ -51,13 +51,8 @@ structure SStream where
   /-- a non-last segment is followed by the next segment of the same message -/
   next : ∀ i f, at_ i = some (.segF f) → f.k + 1 < f.n →
     ∃ g, at_ (i+1) = some (.segF g) ∧ g.uid = f.uid ∧ g.k = f.k + 1 ∧ g.n = f.n ∧ g.ver = f.ver ∧ g.mt = f.mt
-  /-- a non-first segment is preceded by the previous segment of the same message -/
-  prev : ∀ i f, at_ i = some (.segF f) → 0 < f.k →
-    ∃ j g, i = j + 1 ∧ at_ j = some (.segF g) ∧ g.uid = f.uid ∧ g.k + 1 = f.k ∧ g.n = f.n
   kn : ∀ i f, at_ i = some (.segF f) → f.k < f.n ∧ 2 ≤ f.n
   hdrOk : ∀ i f, at_ i = some (.segF f) → f.hdr.length = 16 ∧ segTypeOf f.hdr = segCode f.k f.n
-  /-- different messages have different uids: same uid and same k means same index -/
-  uidInj : ∀ i j f g, at_ i = some (.segF f) → at_ j = some (.segF g) → f.uid = g.uid → f.k = g.k → i = j
 
 def SStream.seq (S : SStream) (i : Nat) : Nat := (S.s0 + i) % 65536
 
